@@ -1049,7 +1049,7 @@ fn mismark(r: &mut Rng, v: &mut Value) {
 /// regression corpus: the inputs on which the monitor found mis-marked or malformed values
 /// before the fix: commits (35ff854, f306b49, eea1d01, ade6601, 60de79d, 9703aa4, e1a3340,
 /// f50d52f, 7af2e92, 3374592, f64950a); replayed first by every search that starts at case 0
-const REGRESSION: [&str; 70] = [
+const REGRESSION: [&str; 84] = [
     "¯\"abc\"",
     "⌊⍆[ℂ5 1.2 ℂ0 1.7]",
     "⌈⍆[ℂ5 1.2 ℂ0 1.7]",
@@ -1124,8 +1124,23 @@ const REGRESSION: [&str; 70] = [
     "⍤⤙≍ 0 has \"\" remove \"\" insert \"\" 1 map [] []",
     // second seeded mutation (un-keep of an array without rows)
     "°▽ []",
-    // STILL OPEN (C05-sort-fixed-map): sorting a fixed map turns its key table into one list key
+    // sorting a fixed map turned its key table into one list key (repaired by 5c01d86)
     "°¤ ⍆ ¤ map [1 2 3 4] [3 1 4 2]",
+    // round 6 (5c01d86, ab5c2d2, 41233b4, b5cebe0, 2fb2751, a57afbd, 15515eb, 2c47c4a)
+    "⍤⤙≍ 1 get 2 °¤ ⍆ ¤ map [1 2 3 4] [3 1 4 2]",
+    "⬚@a↙ [¯3 1] ⍆ [\"Aa\" \"cc\"]",
+    "⇌ ⬚@a↙ [¯3 1] ⍆ [\"Aa\" \"cc\"]",
+    "∵⊟ [1 2 3] map [0] [8]",
+    "∵∨ [1 2 3] map [0] [8]",
+    "°⊂ ⍆ map [1 151] [0 0]",
+    "/× map [1 2 3 4] [3_1 1_3 1_2 1_3]",
+    "⊞△ map 1 2 5",
+    "∵map [1 1] [8 5]",
+    "∵(map 5) [1 0 1]",
+    "∵map \"baa\" \"b0c\"",
+    "⨬(⇌|+) [0] [3 4] 0",
+    "⨬(⍆|⨱) [0] [0 0 1 1] 0",
+    "≡≡⊢ ⍆ [[[1 9][0 0]] [[1 0][5 5]]]",
 ];
 
 static PROGRESS: std::sync::atomic::AtomicU64 = std::sync::atomic::AtomicU64::new(u64::MAX);
